@@ -480,6 +480,50 @@ func init() {
 			c.Fail("C36e/ToCacheReply/decompresses", c.P.Pos(tcr.Pos()), "compressed entries are returned without decompression")
 		}
 		c.RequirePure("C36e", ccK+"CacheValue.ToCacheReply", ccK+"RelayerCacheServer.getRelayInner")
-		c.NotCovered("that gzip round-trips; hash collisions; that the formatter strips only the id; expiry and eviction; GetRelay's seen-block logic")
+		c.Rule("C36f the input formatter rewrites nothing but the id: in ecosystem/cache/format every sjson rewrite of the request (or reply) bytes names the constant path \"id\", nothing is deleted, and no function of the package decodes request JSON into interface{} values (json.RawMessage keeps the bytes and is fine) — a decode/re-encode of params through interface{} turns integers above 2^53 into floats, so requests that differ only there would get one cache key")
+		{
+			const fpk = "ecosystem/cache/format."
+			nSet, bad := 0, ""
+			var at ssa.Instruction
+			for _, f := range c.P.AllFuncs {
+				if !inProd(f) || !strings.HasPrefix(ir.FuncName(f), fpk) {
+					continue
+				}
+				ir.EachInstr(f, func(in ssa.Instruction) {
+					call := ir.CallOf(in)
+					if call == nil {
+						return
+					}
+					n := ir.CalleeName(call)
+					switch {
+					case strings.HasPrefix(n, "github.com/tidwall/sjson.Set"):
+						nSet++
+						if len(call.Args) < 2 || ir.Desc(call.Args[1]) != "const(\"id\")" {
+							bad, at = "rewrites the JSON path "+trunc(ir.Desc(call.Args[1]), 60)+" of the cached request, not only its id", in
+						}
+					case strings.HasPrefix(n, "github.com/tidwall/sjson.Delete"):
+						bad, at = "deletes a field of the cached request ("+n+")", in
+					case n == "encoding/json.Unmarshal" || n == "encoding/json.Decoder.Decode":
+						// decoding into raw messages keeps the bytes; decoding into interface{} values does not keep numbers
+						tgt := call.Args[len(call.Args)-1]
+						if mi, ok := tgt.(*ssa.MakeInterface); ok {
+							tgt = mi.X
+						}
+						if t := tgt.Type().String(); strings.Contains(t, "interface{}") || strings.Contains(t, "any") && !strings.Contains(t, "RawMessage") {
+							bad, at = "decodes request JSON into "+t+": numbers become float64 and lose precision above 2^53 when written back", in
+						}
+					}
+				})
+			}
+			switch {
+			case bad != "":
+				c.Fail("C36f/format/only-the-id-is-rewritten", c.P.InstrPos(at), "the cache-key formatter "+bad)
+			case nSet < 3:
+				c.Undecided("C36f: expected >=3 sjson.Set* calls in ecosystem/cache/format, found %d", nSet)
+			default:
+				c.OK("C36f/format/only-the-id-is-rewritten", "-", itoa(nSet)+" sjson.Set* calls, all on path \"id\"; no delete, no re-encoding")
+			}
+		}
+		c.NotCovered("that gzip round-trips; hash collisions; expiry and eviction; GetRelay's seen-block logic")
 	})
 }
